@@ -100,6 +100,69 @@ def eq_key(f: FuncInfo):
     return attrs, bool(rets) and all(boolish(r) for r in rets)
 
 
+
+def _non_bool_return(program: Program, c, f: FuncInfo, seen: set):
+    """None if every return of the comparison method is a truth value; else a description of the path that is not.  A
+    return of `super().__eq__(other)` / `Base.__eq__(self, other)` is judged by the method it resolves to."""
+    if f in seen:
+        return None
+    seen = seen | {f}
+    rets = [n.value for n in ast.walk(f.node) if isinstance(n, ast.Return) and n.value is not None]
+    if not rets:
+        return "returns None"
+
+    def judge(e):
+        if isinstance(e, ast.Compare):
+            return None
+        if isinstance(e, ast.BoolOp):
+            for v in e.values[-1:]:          # `a and b` answers with b when a is truthy; earlier operands only when falsy/truthy themselves
+                r = judge(v)
+                if r:
+                    return r
+            return None
+        if isinstance(e, ast.UnaryOp) and isinstance(e.op, ast.Not):
+            return None
+        if isinstance(e, ast.Constant) and (isinstance(e.value, bool) or e.value is None):
+            return None
+        if isinstance(e, ast.Name) and e.id == "NotImplemented":
+            return None
+        if isinstance(e, ast.IfExp):
+            return judge(e.body) or judge(e.orelse)
+        if isinstance(e, ast.Call):
+            fn = e.func
+            if isinstance(fn, ast.Name) and fn.id in ("isinstance", "bool", "all", "any", "issubclass", "hasattr", "callable"):
+                return None
+            if isinstance(fn, ast.Attribute) and fn.attr in ("__eq__", "__ne__"):
+                tgt = None
+                if isinstance(fn.value, ast.Call) and isinstance(fn.value.func, ast.Name) and fn.value.func.id == "super" and f.cls is not None:
+                    mro = c.mro
+                    if f.cls in mro:
+                        for k in mro[mro.index(f.cls) + 1:]:
+                            if fn.attr in k.methods:
+                                tgt = k.methods[fn.attr]
+                                break
+                elif isinstance(fn.value, ast.Name):
+                    r = program.resolve_global(f.module, fn.value.id)
+                    if r and r[0] == "class":
+                        tgt = r[1].resolve(fn.attr)
+                    elif fn.value.id == f.params[0]:
+                        tgt = c.resolve(fn.attr)
+                if tgt is None:
+                    return None          # object.__eq__ / unknown receiver: identity or NotImplemented
+                sub = _non_bool_return(program, c, tgt, seen)
+                return f"hands some operands to {tgt.qualname}, which {sub}" if sub else None
+            if isinstance(fn, ast.Name):
+                r = program.resolve_global(f.module, fn.id)
+                if r and r[0] == "class":
+                    return f"builds a {r[1].qualname}"
+            return None
+        return None
+    for e in rets:
+        r = judge(e)
+        if r:
+            return r
+    return None
+
 def check(program: Program, run: Run) -> None:
     run.explanation = (
         "Data-model contract decided from the syntax tree and the render skeletons: for every class defining __eq__/__hash__ "
@@ -164,6 +227,27 @@ def check(program: Program, run: Run) -> None:
                 run.ob("C17/R2 __ne__ is the negation of __eq__", c.qualname, neg, where=nf.loc())
                 if not neg:
                     run.finding(f"C17/ne-not-negation:{c.qualname}", f"{nf.qualname} is not the negation of __eq__", where=nf.loc(), rule="R2")
+
+    # R2b: the objects the property names (tables, schemas, aliased queries, query builders -- every kind of row source)
+    # answer == with a truth value on every path, delegations to an inherited __eq__ followed: the library looks them up
+    # with linear searches (`x in list`, `a == b` in comprehensions), and an == that hands some operand kinds to the
+    # criterion-building Term.__eq__ is truthy for them whatever they are, not symmetric, and disagrees with the hash
+    sel = program.cls("Selectable")
+    named = [k for k in program.all_classes() if (k.is_subclass_of(sel) and k is not sel) or k.name == "Schema"]
+    if len(named) < 4:
+        raise AnalysisError(f"instance count below floor: row-source classes {len(named)}")
+    for k in sorted(named, key=lambda x: x.qualname):
+        ef = k.resolve("__eq__")
+        if ef is None:
+            continue
+        if any(b is not k and b in named and b.resolve("__eq__") is ef for b in k.mro):
+            continue        # judged at the base class it inherits the method from
+        why = _non_bool_return(program, k, ef, set())
+        run.ob("C17/R2b == of a table / schema / aliased query / builder is a truth value on every path", k.qualname, why is None, detail=why or ef.qualname, where=ef.loc())
+        if why is not None:
+            run.finding(f"C17/eq-not-boolean:{k.qualname}",
+                        f"== of a {k.qualname} ({ef.qualname}) {why}: the answer is an always-truthy object for those operands, so == is not symmetric, `x in [..]` succeeds for "
+                        "every x, and the set/dict answer (by hash) differs from the linear search", where=ef.loc(), rule="R2")
 
     # R2: element classes of sets/dicts built by the library
     seen = set()
